@@ -1435,6 +1435,140 @@ def capture_offsets_rule(ctx, prefix):
 
 # ------------------------------------------------------------------ C18
 
+def warning_sink_rule(ctx, prefix):
+    """a flagged defect is reported: the warning sink of the transformer never drops a warning"""
+    import guards as gdm
+    ob = ctx.ob
+    aw = [g for g in ctx.sc.fns if g.name == "add_warning" and g.base == "StyleSheetTransformer" and g.body]
+    if not aw:
+        return []
+    GA = gdm.guards_of(aw[0].body)
+    pushes = [n for n in sir.walk(aw[0].body) if n.get("k") == "mcall" and n["m"] == "push" and "warnings" in sir.expr_str(n["recv"])]
+    cond_push = [p_ for p_ in pushes if GA.get(id(p_))]
+    okw = len(pushes) >= 1 and not cond_push and not any(n.get("k") == "return" for n in sir.walk(aw[0].body))
+    return [ob("%s.position/warning-sink" % prefix if prefix == "C18" else "%s.warn/sink" % prefix, okw, ctx.where(aw[0]), "add_warning records every warning it is given: %s" % okw,
+               witness=None if okw else "several flagged rules on one line (minified CSS): only the first is reported")]
+
+
+def host_extra_rules(ctx, prefix):
+    """obligations added after the eighth wave of seeded changes (C17)"""
+    ob = ctx.ob
+    sc = ctx.sc
+    obs = []
+    pq = [g for g in sc.fns if g.name == "parse_qualified_rule" and g.body]
+    if not pq:
+        return obs
+    g = pq[0]
+    where = ctx.where(g)
+    # the look-ahead that recognises `:host` is one transaction: the colon is consumed inside the try_parse that is rolled back
+    # when the rule turns out not to be a :host rule
+    det = None
+    for n in sir.walk(g.body):
+        if n.get("k") == "mcall" and n["m"] == "try_parse":
+            for a_ in n["args"]:
+                if a_.get("k") == "closure" and any(x.get("k") == "lit" and x.get("v") == "host" for x in sir.walk(a_["body"])):
+                    det = a_
+    colons = [n for n in sir.walk(g.body) if n.get("k") == "mcall" and n["m"] == "expect_colon"]
+    if det is None or not colons:
+        obs.append(ob("%s.only/one-transaction" % prefix, None, where, "the :host look-ahead is not in a form this rule reads"))
+    else:
+        inside = set(id(x) for x in sir.walk(det["body"]))
+        outside = [c for c in colons if id(c) not in inside]
+        obs.append(ob("%s.only/one-transaction" % prefix, not outside, where, "the leading colon is consumed inside the look-ahead that is rolled back for ordinary rules" if not outside else "a leading colon is consumed outside the :host look-ahead: it is not given back when the rule is an ordinary one",
+                      witness=None if not outside else ":root{} is emitted as root{}"))
+        # once `:host` has been recognised the rule is committed: nothing after the detection fails the look-ahead again
+        detm = None
+        for m in sir.walk(det["body"]):
+            if m.get("k") == "match" and any("Token::Ident" in sir.pat_str(a["pat"]) for a in m["arms"]) and any("Token::Function" in sir.pat_str(a["pat"]) for a in m["arms"]):
+                detm = m
+                break
+        if detm is not None:
+            order = list(sir.walk(det["body"]))
+            pos = {id(x): i for i, x in enumerate(order)}
+            end_det = max(pos[id(x)] for x in sir.walk(detm))
+            late = [x for x in order[end_det + 1:] if x.get("k") == "return" and x.get("e") is not None and sir.expr_str(x["e"]).startswith("Err(")]
+            late += [x for x in order[end_det + 1:] if x.get("k") == "try" and x["e"].get("k") != "mcall"]
+            obs.append(ob("%s.only/committed" % prefix, not late, where, "after `:host` has been recognised the look-ahead no longer fails" if not late else "after `:host` has been recognised the look-ahead can still fail (%d exit(s)): the rule falls back to the normal stream although it is a :host rule" % len(late),
+                          witness=None if not late else "`:host, .a {}` stays in the normal output, without a warning"))
+    return obs
+
+
+def source_token_rules(ctx, prefix):
+    """obligations added after the eighth wave of seeded changes (C19)"""
+    ob = ctx.ob
+    sc = ctx.sc
+    obs = []
+    # (1) the name registered for a rewritten token is the token's source spelling (to_css_string), whatever its kind
+    fs = [f for f in sc.fns if f.name == "append_token" and f.base == "StyleSheetOutput" and f.body]
+    if fs:
+        f = fs[0]
+        bad, n_ = [], 0
+        for n in sir.walk(f.body):
+            if n.get("k") == "mcall" and n["m"] == "add_name" and n["args"]:
+                n_ += 1
+                a = sir.strip_ref(n["args"][0])
+                src = a
+                if a.get("k") == "path" and len(a["segs"]) == 1:
+                    from rules.c02 import FnScope
+                    r_ = FnScope(f.node, []).resolve(a["segs"][0], n)   # the innermost binding visible at the call
+                    src = r_[1] if r_ is not None and r_[0] == "let" and r_[1] is not None else a
+                if not any(x.get("k") == "mcall" and x["m"] == "to_css_string" for x in sir.walk(src)):
+                    bad.append(sir.expr_str(a)[:40])
+        obs.append(ob("%s.src/name-spelling" % prefix, (not bad) if n_ else None, ctx.where(f), "%d name registration(s), each from the token's to_css_string()" % n_ if not bad else "a name is registered from `%s`, not from the token's source spelling" % bad[0],
+                      witness=None if not bad else ".md\\:flex with a class prefix is named `md:flex`"))
+    # (2) a token copied from the input keeps the position of the token it was copied from
+    bad, n_ = [], 0
+    for g in sc.fns:
+        if not g.body or g.base == "StyleSheetOutput":
+            continue
+        for n in sir.walk(g.body):
+            if not (n.get("k") == "call" and (sir.call_path(n) or "").endswith("StepToken::wrap") and len(n["args"]) == 2):
+                continue
+            tok = sir.strip_ref(n["args"][0])
+            if not (tok.get("k") == "call" and tok["args"]):
+                continue
+            payload = [x["segs"][0] for a_ in tok["args"] for x in sir.walk(a_) if x.get("k") == "path" and len(x["segs"]) == 1]
+            # which StepToken variable was the payload taken from?  `if let Token::K(x) = &*peek` / `match &*next { Token::K(x) => ..`
+            origin = None
+            for m in sir.walk(g.body):
+                pat, scrut = None, None
+                if m.get("k") == "if" and m["cond"].get("k") == "let":
+                    pat, scrut = m["cond"]["pat"], m["cond"]["e"]
+                    region = m["then"]
+                elif m.get("k") == "match":
+                    for a_ in m["arms"]:
+                        if any(x is n for x in sir.walk(a_["body"])) and any(b in payload for b, _ in sir.pat_bindings(a_["pat"])):
+                            pat, scrut, region = a_["pat"], m["e"], a_["body"]
+                if pat is None or not any(x is n for x in sir.walk(region)):
+                    continue
+                if any(b in payload for b, _ in sir.pat_bindings(pat)):
+                    s_ = sir.strip_ref(scrut)
+                    while s_.get("k") == "unary" and s_.get("op") == "*":
+                        s_ = sir.strip_ref(s_["e"])
+                    if s_.get("k") == "path" and len(s_["segs"]) == 1:
+                        origin = s_["segs"][0]
+                    elif s_.get("k") == "field" and s_["name"] == "token":
+                        origin = sir.expr_str(s_["base"])
+            if origin is None:
+                continue
+            n_ += 1
+            pos = sir.expr_str(sir.strip_ref(n["args"][1])).replace(" ", "")
+            if pos not in ("%s.position" % origin, "%s.position.clone()" % origin):
+                bad.append("%s: payload of `%s` is re-emitted at `%s`" % (g.name, origin, pos))
+    obs.append(ob("%s.src/copied-token-position" % prefix, (not bad) if (bad or n_ >= 2) else None, "lib.rs", "%d tokens rebuilt from an input token keep that token's position" % n_ if not bad else "; ".join(bad[:2]),
+                  witness=None if not bad else "@media is mapped to the position just after the keyword instead of to the `@`"))
+    # (3) closing brackets are appended as they were produced (their position is that of the opening token's close, not re-derived)
+    cl = [g for g in sc.fns if g.name == "append_nested_block_close" and g.body]
+    if cl:
+        g = cl[0]
+        rebinding = [l_ for l_ in sir.walk(g.body) if l_.get("k") == "local" and any(b == "close" for b, _ in sir.pat_bindings(l_["pat"]))]
+        wraps = [x for x in sir.walk(g.body) if x.get("k") == "call" and (sir.call_path(x) or "").endswith("StepToken::wrap")]
+        ok = not rebinding and not wraps
+        obs.append(ob("%s.src/close-token-verbatim" % prefix, ok, ctx.where(g), "the closing token is appended as it was produced" if ok else "the closing token is rebuilt with a position derived from the cursor",
+                      witness=None if ok else "a block left open at the end of input: the supplied `}` is mapped to the last character of the input"))
+    return obs
+
+
 def import_extra_rules(ctx, prefix, f, where):
     """obligations added after the seventh wave of seeded changes"""
     import guards as gdm
@@ -1492,14 +1626,7 @@ def import_extra_rules(ctx, prefix, f, where):
         obs.append(ob("%s.wrap/media-blocks" % prefix, not missing, ctx.where(dm.fn), "nested blocks of the media list are copied with their content and closed" if not missing else "%s in the media list is copied as a bare token: its content and closing bracket are lost" % missing,
                       witness=None if not missing else "`@import 'a' screen and env(foo);` emits `@media screen and env({...` unbalanced"))
     # (4) a flagged position is reported: the warning sink never drops a warning
-    aw = [g for g in sc.fns if g.name == "add_warning" and g.base == "StyleSheetTransformer" and g.body]
-    if aw:
-        GA = gdm.guards_of(aw[0].body)
-        pushes = [n for n in sir.walk(aw[0].body) if n.get("k") == "mcall" and n["m"] == "push" and "warnings" in sir.expr_str(n["recv"])]
-        cond_push = [p_ for p_ in pushes if GA.get(id(p_))]
-        okw = len(pushes) >= 1 and not cond_push and not any(n.get("k") == "return" for n in sir.walk(aw[0].body))
-        obs.append(ob("%s.position/warning-sink" % prefix, okw, ctx.where(aw[0]), "add_warning records every warning it is given: %s" % okw,
-                      witness=None if okw else "`.a{}@import 'x';@import 'y';` flags only the first misplaced import"))
+    obs += warning_sink_rule(ctx, prefix)
     return obs
 
 
